@@ -220,8 +220,248 @@ func c20Race(r *Rng, tier string, rep *Report) {
 	}
 }
 
+// ---- correspondence model "conc": the abstract interleaving semantics against real goroutines ----------
+//
+// The Coq semantics (Conc/Model.v: run) executes little programs over Global / Owned locations under a
+// schedule.  Here the same programs are executed by real goroutines on a shared Go map; the schedule is
+// enforced by handing a token over channels (so every step happens-before the next and the execution is
+// the sequentially consistent interleaving the model describes).  This ties the meaning of "interleaving
+// of atomic actions" in the theorems to what goroutines do; it says nothing about /repo.
+
+type concLoc struct{ tag, a, b int64 }
+
+func concInit(l concLoc) int64 {
+	if l.tag == 0 {
+		return 10 + l.a
+	}
+	return 100*l.a + l.b
+}
+
+func concImpl(c Case) []int64 {
+	a := c.Args
+	if len(a) == 0 {
+		return []int64{-1}
+	}
+	nt := int(a[0])
+	a = a[1:]
+	type instr struct{ op, a, b, c int64 }
+	progs := make([][]instr, nt)
+	for t := 0; t < nt; t++ {
+		if len(a) == 0 {
+			progs = progs[:t]
+			break
+		}
+		ni := int(a[0])
+		a = a[1:]
+		for k := 0; k < ni; k++ {
+			if len(a) < 4 {
+				// the Coq decoder drops a truncated thread list entirely
+				return concTruncated(c)
+			}
+			progs[t] = append(progs[t], instr{a[0], a[1], a[2], a[3]})
+			a = a[4:]
+		}
+	}
+	sched := a
+	mem := map[concLoc]int64{}
+	get := func(l concLoc) int64 {
+		if v, ok := mem[l]; ok {
+			return v
+		}
+		return concInit(l)
+	}
+	loc := func(i instr) concLoc {
+		if i.a == 0 {
+			return concLoc{0, max64(i.b, 0), 0}
+		}
+		return concLoc{1, max64(i.b, 0), max64(i.c, 0)}
+	}
+	type turn struct{ done chan []int64 }
+	n := len(progs)
+	tokens := make([]chan turn, n)
+	finished := make([]bool, n)
+	results := make([]int64, n)
+	var wg sync.WaitGroup
+	for t := 0; t < n; t++ {
+		tokens[t] = make(chan turn)
+		wg.Add(1)
+		go func(t int) {
+			defer wg.Done()
+			acc := int64(0)
+			pc := 0
+			ins := progs[t]
+			for tk := range tokens[t] {
+				// skip over the control-flow instructions: they are not atomic actions of the model
+				for pc < len(ins) && ins[pc].op != 0 && ins[pc].op != 1 {
+					if acc%2 != 0 {
+						pc += int(max64(ins[pc].a, 0))
+					}
+					pc++
+				}
+				if pc >= len(ins) {
+					finished[t], results[t] = true, acc
+					tk.done <- nil
+					continue
+				}
+				i := ins[pc]
+				pc++
+				l := loc(i)
+				if i.op == 0 {
+					acc = get(l)
+					tk.done <- []int64{int64(t), 0, l.tag, l.a, l.b, acc}
+				} else {
+					mem[l] = acc + 1
+					tk.done <- []int64{int64(t), 1, l.tag, l.a, l.b, acc + 1}
+				}
+			}
+			// after the schedule: has the thread reached its end?
+			for pc < len(ins) && ins[pc].op != 0 && ins[pc].op != 1 {
+				if acc%2 != 0 {
+					pc += int(max64(ins[pc].a, 0))
+				}
+				pc++
+			}
+			if pc >= len(ins) {
+				finished[t], results[t] = true, acc
+			}
+		}(t)
+	}
+	var out []int64
+	for _, s := range sched {
+		if s < 0 || int(s) >= n {
+			continue
+		}
+		tk := turn{done: make(chan []int64)}
+		tokens[s] <- tk
+		out = append(out, <-tk.done...)
+	}
+	for t := 0; t < n; t++ {
+		close(tokens[t])
+	}
+	wg.Wait()
+	out = append(out, -1)
+	for t := 0; t < n; t++ {
+		if finished[t] {
+			out = append(out, results[t])
+		} else {
+			out = append(out, -2)
+		}
+	}
+	return out
+}
+
+func concTruncated(c Case) []int64 { return []int64{-1} }
+
+func max64(a, b int64) int64 {
+	if a > b {
+		return a
+	}
+	return b
+}
+
+func concCase(progs [][][4]int64, sched []int64, note string) Case {
+	args := []int64{int64(len(progs))}
+	for _, p := range progs {
+		args = append(args, int64(len(p)))
+		for _, i := range p {
+			args = append(args, i[0], i[1], i[2], i[3])
+		}
+	}
+	args = append(args, sched...)
+	return Case{Fn: "conc", Args: args, Note: note}
+}
+
+func concGen(r *Rng, tier string, emit func(Case)) {
+	// exhaustive small scope: 2 threads x 2 instructions over a 5-letter alphabet x all schedules of length 4
+	alpha := func(t int64) [][4]int64 {
+		return [][4]int64{{0, 0, 0, 0}, {0, 1, t, 0}, {1, 1, t, 0}, {1, 0, 0, 0}, {2, 1, 0, 0}, {0, 1, 1 - t, 0}}
+	}
+	a0, a1 := alpha(0), alpha(1)
+	k := 4
+	if tier == "thorough" {
+		k = 6
+	}
+	for _, i0 := range a0 {
+		for _, i1 := range a0 {
+			for _, j0 := range a1 {
+				for _, j1 := range a1 {
+					for s := 0; s < 1<<k; s++ {
+						if tier != "thorough" && (s*7+int(i0[0]+i1[0]*3+j0[0]*5+j1[0]*11))%2 == 1 {
+							continue // quick: every other schedule
+						}
+						sched := make([]int64, k)
+						for b := 0; b < k; b++ {
+							sched[b] = int64(s >> b & 1)
+						}
+						emit(concCase([][][4]int64{{i0, i1}, {j0, j1}}, sched, "exhaustive 2x2"))
+					}
+				}
+			}
+		}
+	}
+	// seeded: more threads, longer programs, safe (own data + globals read-only) and unsafe ones
+	n := 6000
+	if tier == "thorough" {
+		n = 300000
+	}
+	for it := 0; it < n; it++ {
+		nt := 1 + r.Intn(4)
+		safe := it%2 == 0
+		progs := make([][][4]int64, nt)
+		total := 0
+		for t := range progs {
+			ni := r.Intn(7)
+			total += ni
+			for q := 0; q < ni; q++ {
+				var in [4]int64
+				switch r.Intn(5) {
+				case 0, 1:
+					in = [4]int64{0, int64(r.Intn(2)), int64(r.Intn(3)), int64(r.Intn(3))}
+				case 2, 3:
+					in = [4]int64{1, int64(r.Intn(2)), int64(r.Intn(3)), int64(r.Intn(3))}
+				default:
+					in = [4]int64{2, int64(r.Intn(3)), 0, 0}
+				}
+				if safe && in[0] != 2 {
+					if in[1] == 1 {
+						in[2] = int64(t) // only its own data
+					} else if in[0] == 1 {
+						in[0] = 0 // globals are read-only
+					}
+				}
+				progs[t] = append(progs[t], in)
+			}
+		}
+		sched := make([]int64, r.Intn(total+3))
+		for q := range sched {
+			sched[q] = int64(r.Intn(nt))
+		}
+		note := "random unsafe"
+		if safe {
+			note = "random safe"
+		}
+		emit(concCase(progs, sched, note))
+	}
+}
+
+var concModel = &Model{
+	Name: "conc",
+	Gen:  concGen,
+	Impl: concImpl,
+	Class: func(c Case, out []int64) string {
+		s := c.Note
+		for _, v := range out {
+			if v == -2 {
+				return s + "/unfinished"
+			}
+		}
+		return s + "/all-finished"
+	},
+}
+
 func init() {
 	props["C20"] = &PropSpec{
+		Models: []*Model{concModel},
 		Oracles: []*Oracle{
 			{Name: "c20-race", Run: c20Race},
 			{Name: "c20-concurrent", Run: c20Concurrent},
